@@ -198,8 +198,21 @@ func (lam *Lambda) BoundCall(s *Scope, depth int) (result Object) {
 			}
 			break
 		}
+		if _, ok := result.(Transfer); ok {
+			break // a go to a tag outside of the function body
+		}
 	}
 	return
+}
+
+// Transfer is implemented by result objects that carry a non-local transfer
+// of control other than a ReturnResult (the result of a go) and therefore
+// have to be passed up unchanged by a function body.
+type Transfer interface {
+	Object
+
+	// IsTransfer is a marker method.
+	IsTransfer()
 }
 
 // DefLambda parses arguments into a Lambda. Arguments should be a lambda-list
